@@ -37,6 +37,8 @@ def run(ck):
     ck.rule("C13.R12", "the set of configured span lifecycle points is what the user's expression denotes: FmtSpan's operators compute the operator they are named after", floor=6)
     ck.rule("C13.R13", "a span's formatted fields accumulate: handing out the writer over them and recording further values never discards what is already there", floor=3)
     ck.rule("C13.R14", "a writer expression denotes what its spelling says: each MakeWriterExt adaptor builds its own combinator from (self, argument) in place, the provided make_writer_for is make_writer, and the sum / guard writers forward every io::Write method to the writer they hold", floor=20)
+    ck.rule("C13.R19", "a fallback takes over exactly when its primary writes nowhere: `disabled` stays visible through stacked bounds (a range built from two bounds, a "
+            "bound on a filtered writer) up to the or_else that asks for it", floor=1)
     ck.rule("C13.R18", "the fields a JSON record shows for a span are the ones last recorded: a later Span::record is merged over the stored object (stored first, "
             "new values on top), and a span without stored fields is written without them (as C14.R2)", floor=6)
     ck.rule("C13.R17", "an event that arrives while the thread's locals are being torn down is still written: on_event reaches its per-thread buffer with try_with and "
@@ -66,6 +68,7 @@ def run(ck):
     r14(ck, F)
     r15(ck, F)
     r17(ck, F)
+    r19(ck, F)
     from rules import C14 as _C14
     _C14.extensions_typemap(ck, F, "C13.R16")
     _C14.r2(ck, F, rid="C13.R18")
@@ -634,6 +637,38 @@ def r14(ck, F):
                 ck.bad("C13.R14", key, where(b.raw["sp"]), "; ".join(sorted(set(problems))), fn=b.path)
             else:
                 ck.ok("C13.R14", key, fn=b.path)
+
+
+def r19(ck, F):
+    """or_else looks at the outermost variant of the primary's OptionalWriter. with_max_level / with_min_level / with_filter
+    wrap whatever their inner factory returned in `some(..)` -- also when that is itself an OptionalWriter that is `none()`
+    (the inner bound rejected the record). `a.with_max_level(DEBUG).with_min_level(INFO).or_else(b)`: a TRACE record passes
+    the outer bound, is rejected by the inner one, the primary yields `some(none())`, or_else takes it for enabled, never
+    asks `b`, and the record is written to io::sink."""
+    oe = F.impl_method(MW, W + "OrElse<", "make_writer_for") or next((F.body(i["methods"]["make_writer_for"]) for i in F.impls_of(MW) if "OrElse<" in i["self_ty"] and "make_writer_for" in i["methods"]), None)
+    if not ck.anchor("C13.R19", "OrElse::make_writer_for", oe):
+        return
+    outer_only = all(any(show(c[0]).startswith("discr(make_writer_for(arg1.") for c in p.conds) and
+                     not any("as A).0)" in show(c[0]) and show(c[0]).startswith("discr(") for c in p.conds)
+                     for p in PathEval(oe).run() if p.end == "return")
+    blind = []
+    for i in F.impls_of(MW):
+        st = i["self_ty"]
+        if not any(k in st for k in ("WithMaxLevel<", "WithMinLevel<", "WithFilter<")):
+            continue
+        b = F.body(i["methods"].get("make_writer_for") or "")
+        if b is None:
+            continue
+        for p in PathEval(b).run():
+            if p.end == "return" and show(p.ret).startswith("some(make_writer_for(arg1.") and not any("make_writer_for(" in show(c[0]) for c in p.conds):
+                blind.append(st.split("::")[-1].split("<")[0])
+    key = "bounded writers keep `disabled` visible to or_else"
+    if outer_only and blind:
+        ck.bad("C13.R19", key, where(oe.raw["sp"]), "%s wrap the inner factory's writer in some(..) without looking at it, and OrElse::make_writer_for decides on the outermost "
+               "variant alone: a primary built from two stacked bounds yields some(none()) for a record the inner bound rejects -- the fallback is not asked and the record "
+               "reaches no sink" % sorted(set(blind)), fn=oe.path)
+    else:
+        ck.ok("C13.R19", key, fn=oe.path, detail=dict(outer_only=outer_only, blind=sorted(set(blind))))
 
 
 def r17(ck, F):
